@@ -59,39 +59,49 @@ def run(idx: Index, rep: Report, tier: str) -> None:
             raise AnalysisError("anchor vanished: OperationMode")
         om = cands[0]
     modes = [t.id for s in om.node.body if isinstance(s, ast.Assign) for t in s.targets if isinstance(t, ast.Name)]
-    chain_if = [s for s in f.node.body if isinstance(s, ast.If) and _modes_of(s.test)]
-    if not chain_if:
-        raise AnalysisError("anchor vanished: operation-mode chain in _engine_satisfies_conditions")
-    node = chain_if[0]
-    branches: List = []
-    default_body: List[ast.stmt] = []
-    while isinstance(node, ast.If):
-        branches.append((_modes_of(node.test), node.body, node))
-        if len(node.orelse) == 1 and isinstance(node.orelse[0], ast.If) and _modes_of(node.orelse[0].test):
-            node = node.orelse[0]
-        else:
-            default_body = node.orelse
-            break
-    covered: Set[str] = set()
-    for ms, body, nd in branches:
-        covered |= ms
+    def _mode_chain_rule() -> None:
+        chain_if = [s for s in f.node.body if isinstance(s, ast.If) and _modes_of(s.test)]
+        if not chain_if:
+            # a table-driven dispatch (a dict keyed by the operation modes) instead of the chain: the rule reads the chain
+            # form only and says so; with neither a chain nor a table the anchor is lost
+            tables = [d for d in ast.walk(f.node) if isinstance(d, ast.Dict) and d.keys and all(k is not None and norm(k).split(".")[-1] in modes for k in d.keys)]
+            if not tables:
+                raise AnalysisError("anchor vanished: operation-mode chain in _engine_satisfies_conditions")
+            missing = sorted(set(modes) - {norm(k).split(".")[-1] for d in tables for k in d.keys})
+            rep.inconclusive(rule1, "requirement coverage per operation mode", f.loc(tables[0]), construct=f"dispatch through a table over {len(tables[0].keys)} operation modes" + (f"; modes without a row: {missing}" if missing else ""), detail="not decided: the rule reads the if/elif chain over the operation modes only", function=f.qualname)
+            return
+        node = chain_if[0]
+        branches: List = []
+        default_body: List[ast.stmt] = []
+        while isinstance(node, ast.If):
+            branches.append((_modes_of(node.test), node.body, node))
+            if len(node.orelse) == 1 and isinstance(node.orelse[0], ast.If) and _modes_of(node.orelse[0].test):
+                node = node.orelse[0]
+            else:
+                default_body = node.orelse
+                break
+        covered: Set[str] = set()
+        for ms, body, nd in branches:
+            covered |= ms
+            for req in REQ_PRED:
+                h = _branch_handles(body, req)
+                rep.check(bool(h), rule1, f"mode {'/'.join(sorted(ms))}: requirement {req} is asserted None or checked through EngineClass.{REQ_PRED[req]}", f.loc(nd), construct=f"{'/'.join(sorted(ms))} x {req}: {h or 'neither'}", detail="" if h else f"for this operation mode a requested {req} is silently ignored: the factory can return an engine that does not honour it", function=f.qualname)
+        rest = [m for m in modes if m not in covered]
         for req in REQ_PRED:
-            h = _branch_handles(body, req)
-            rep.check(bool(h), rule1, f"mode {'/'.join(sorted(ms))}: requirement {req} is asserted None or checked through EngineClass.{REQ_PRED[req]}", f.loc(nd), construct=f"{'/'.join(sorted(ms))} x {req}: {h or 'neither'}", detail="" if h else f"for this operation mode a requested {req} is silently ignored: the factory can return an engine that does not honour it", function=f.qualname)
-    rest = [m for m in modes if m not in covered]
-    for req in REQ_PRED:
-        h = _branch_handles(default_body, req)
-        rep.check(h == "assert-none", rule1, f"other modes ({len(rest)}): requirement {req} must not be given", f.loc(), construct=f"else: assert {req} is None" if h else "missing", detail="" if h else f"a {req} passed with an operation mode that cannot honour it is ignored", function=f.qualname)
-    rep.count("mode_branches", len(branches))
-    rep.require_min(rule1, "mode_branches", 5)
-    # operation mode itself
-    first = f.node.body[0] if not isinstance(f.node.body[0], ast.Expr) else f.node.body[1]
-    ok = isinstance(first, ast.If) and "getattr(EngineClass, 'is_' + operation_mode.value)()" in norm(first.test) and isinstance(first.test, ast.UnaryOp) and any(isinstance(r, ast.Return) and isinstance(r.value, ast.Constant) and r.value.value is False for r in first.body)
-    rep.check(ok, rule1, "an engine of another operation mode is rejected first", f.loc(first), construct=norm(first.test)[:90], detail="" if ok else "engines are not filtered by the requested operation mode", function=f.qualname)
-    rets = [r for r in walk_no_nested(f.node) if isinstance(r, ast.Return)]
-    other = [r for r in rets if not (isinstance(r.value, ast.Constant) and r.value.value is False)]
-    ok = len(other) == 1 and norm(other[0].value) == "EngineClass.supports(problem_kind)" and other[0] is f.node.body[-1]
-    rep.check(ok, rule1, "the only non-False verdict is EngineClass.supports(problem_kind)", f.loc(other[0]) if other else f.loc(), construct="; ".join(norm(r) for r in other)[:120], detail="" if ok else "an engine can be accepted without supporting the problem kind", function=f.qualname)
+            h = _branch_handles(default_body, req)
+            rep.check(h == "assert-none", rule1, f"other modes ({len(rest)}): requirement {req} must not be given", f.loc(), construct=f"else: assert {req} is None" if h else "missing", detail="" if h else f"a {req} passed with an operation mode that cannot honour it is ignored", function=f.qualname)
+        rep.count("mode_branches", len(branches))
+        rep.require_min(rule1, "mode_branches", 5)
+        # operation mode itself
+        first = f.node.body[0] if not isinstance(f.node.body[0], ast.Expr) else f.node.body[1]
+        ok = isinstance(first, ast.If) and "getattr(EngineClass, 'is_' + operation_mode.value)()" in norm(first.test) and isinstance(first.test, ast.UnaryOp) and any(isinstance(r, ast.Return) and isinstance(r.value, ast.Constant) and r.value.value is False for r in first.body)
+        rep.check(ok, rule1, "an engine of another operation mode is rejected first", f.loc(first), construct=norm(first.test)[:90], detail="" if ok else "engines are not filtered by the requested operation mode", function=f.qualname)
+        rets = [r for r in walk_no_nested(f.node) if isinstance(r, ast.Return)]
+        other = [r for r in rets if not (isinstance(r.value, ast.Constant) and r.value.value is False)]
+        ok = len(other) == 1 and norm(other[0].value) == "EngineClass.supports(problem_kind)" and other[0] is f.node.body[-1]
+        rep.check(ok, rule1, "the only non-False verdict is EngineClass.supports(problem_kind)", f.loc(other[0]) if other else f.loc(), construct="; ".join(norm(r) for r in other)[:120], detail="" if ok else "an engine can be accepted without supporting the problem kind", function=f.qualname)
+
+    _mode_chain_rule()
 
     # ---------------------------------------------------------------- (2)
     rule2 = "C32.2 T2 selection"
